@@ -87,6 +87,29 @@ def op_json(op):
     return out
 
 
+def spec_from_json(j):
+    f = lambda xs: None if xs is None else [float(x) for x in xs]  # noqa
+    return {"names": list(j["names"]), "defaults": f(j.get("defaults")), "mins": f(j.get("mins")), "maxs": f(j.get("maxs")),
+            "cb": bool(j["check_bounds"]), "ch": bool(j["check_hitbounds"]), "an": bool(j["accept_nan"])}
+
+
+def op_from_json(o):
+    kind = o[0]
+    if kind in ("sa", "sk"):
+        return (kind, int(o[1]), o[2], float(o[3])) + tuple(o[4:5])
+    if kind == "sv":
+        if len(o) > 3 and o[3] == "getter":
+            return ("sv", int(o[1]), (int(o[2][0]), o[2][1]), "getter")
+        return ("sv", int(o[1]), [float(x) for x in o[2]]) + tuple(o[3:4])
+    if kind in ("rs", "cl", "dr"):
+        return (kind, int(o[1]))
+    if kind in ("ti", "ta"):
+        return (kind, o[1], float(o[2]))
+    if kind in ("pv", "cv"):
+        return (kind, [float(x) for x in o[1]])
+    return tuple(o)
+
+
 # --------------------------------------------------------------------------------------
 # observation of the real objects (public getters only)
 class Snap:
@@ -855,6 +878,40 @@ def body(ctx):
                 fops = shrink_ops(np, Vector, spec, fops, sig)
             ctx.finding("vector/" + sig, what, {"spec": spec_json(spec), "ops": [op_json(o) for o in fops], "step": len(fops) - 1})
 
+    tcases = []
+    inputs = [np.array([0.1, 0.5, 2.0]), 0.3, np.array([-1.0, 0.0, 1.5, 30.0]), np.array([[0.2, 0.1]]), 7.0]
+
+    def transform_case(clsname, kwargs, ops, gen="transform"):
+        try:
+            req, obs, findings, changed = run_transform_case(np, transform, clsname, kwargs, ops, inputs)
+        except Exception as e:
+            ctx.finding(f"transform/{clsname}/unexpected_exception", f"{type(e).__name__}: {e}",
+                        {"class": clsname, "kwargs": kwargs})
+            return
+        reqs.append(req)
+        impls.append(obs)
+        cases.append({"gen": gen, "class": clsname, "kwargs": kwargs, "ops": [op_json(o) for o in ops]})
+        tcases.append(len(reqs) - 1)
+        ctx.count(req, changed, f"{gen}/{clsname}", sample=None)
+        for op in ops:
+            key = f"top/{op[0]}"
+            ctx.hist[key] = ctx.hist.get(key, 0) + 1
+        for sig, what, step in findings:
+            fops = ops[:step + 1]
+            if sig not in shrunk:
+                shrunk.add(sig)
+                fops = shrink_tops(np, transform, clsname, kwargs, fops, inputs, sig)
+            ctx.finding(sig, what, {"class": clsname, "kwargs": kwargs, "ops": [op_json(o) for o in fops]})
+
+    # ---- (0) corpus: minimised past failures, replayed first
+    import json as _json
+    for f in sorted((C.ROOT / "corpus" / PID).glob("*.json")):
+        j = _json.loads(f.read_text())
+        if j.get("kind") == "transform":
+            transform_case(j["class"], j.get("kwargs", {}), [op_from_json(o) for o in j["ops"]], "corpus")
+        else:
+            vector_case(spec_from_json(j["spec"]), [op_from_json(o) for o in j["ops"]], "corpus")
+
     # ---- (i) exhaustive sequences of fixed depth
     depth = ctx.scale(4, 5)
     quick_alpha = ctx.scale(7, 8)
@@ -884,9 +941,7 @@ def body(ctx):
         vector_case(spec, [("rs", 0), ("cl", 0)], "malformed")
 
     # ---- (iv) transforms
-    tcases = []
     ninter = ctx.scale(40, 1500)
-    inputs = [np.array([0.1, 0.5, 2.0]), 0.3, np.array([-1.0, 0.0, 1.5, 30.0]), np.array([[0.2, 0.1]]), 7.0]
     for clsname in transform.__all__:
         if clsname not in TCTOR:
             ctx.disagree("transform class not known to the harness", {"class": clsname})
@@ -896,27 +951,12 @@ def body(ctx):
             try:
                 t0 = getattr(transform, clsname)(**kwargs)
                 pspec, cspec = spec_of_vector(t0.params), spec_of_vector(t0.constants)
-                ops = [gen_top(rng, pspec, cspec) for _ in range(rng.choice([4, 12, 25]))]
-                req, obs, findings, changed = run_transform_case(np, transform, clsname, kwargs, ops, inputs)
             except Exception as e:
                 ctx.finding(f"transform/{clsname}/unexpected_exception", f"{type(e).__name__}: {e}",
                             {"class": clsname, "kwargs": kwargs})
                 continue
-            reqs.append(req)
-            impls.append(obs)
-            case = {"gen": "transform", "class": clsname, "kwargs": kwargs, "ops": [op_json(o) for o in ops]}
-            cases.append(case)
-            tcases.append(len(reqs) - 1)
-            ctx.count(req, changed, f"transform/{clsname}", sample=None)
-            for op in ops:
-                key = f"top/{op[0]}"
-                ctx.hist[key] = ctx.hist.get(key, 0) + 1
-            for sig, what, step in findings:
-                fops = ops[:step + 1]
-                if sig not in shrunk:
-                    shrunk.add(sig)
-                    fops = shrink_tops(np, transform, clsname, kwargs, fops, inputs, sig)
-                ctx.finding(sig, what, {"class": clsname, "kwargs": kwargs, "ops": [op_json(o) for o in fops]})
+            ops = [gen_top(rng, pspec, cspec) for _ in range(rng.choice([4, 12, 25]))]
+            transform_case(clsname, kwargs, ops)
     tset = set(tcases)
 
     # ---- correspondence: every observation of every step
